@@ -26,6 +26,7 @@ type GuardAlloc struct {
 	env      *Env
 	OnFree   func(p unsafe.Pointer, b *block) // before the block is poisoned
 	Mallocs  int
+	BadFrees int // double frees and frees of unknown pointers
 	Frees    int
 	NoYield  bool
 	failures []string
@@ -210,6 +211,7 @@ func (g *GuardAlloc) Free(p unsafe.Pointer) {
 	addr := uintptr(p)
 	b, ok := g.live[addr]
 	if !ok {
+		g.BadFrees++
 		if fb, was := g.freed[addr]; was {
 			g.fail("C04", "double-free/"+fb.class, "block %#x (%s, %d bytes, allocated at event %d, first freed at event %d) freed again", addr, fb.class, fb.size, fb.seq, fb.freedS)
 			// also C07: every block is returned exactly once
